@@ -2,6 +2,7 @@
 from __future__ import annotations
 
 import ast
+import os as _os
 from typing import Dict, Iterator, List, Optional, Set, Tuple
 
 from .expr import C, SELF, canon, root_of, show, strip_epochs, walk
@@ -16,17 +17,20 @@ _TYPED_CACHE: Dict[tuple, Dict[str, Set[str]]] = {}
 
 def paths(prog: Program, ctx: Optional[str], func: FuncInfo, inline: str = "light", second: bool = True,
           no_inline: Tuple[str, ...] = (), force_inline: Tuple[str, ...] = (), param_types: Optional[dict] = None,
-          max_states: int = 4000, opaque=None) -> List[State]:
+          max_states: int = 4000, opaque=None, alias: bool = True) -> List[State]:
     if inline == "light":
         # the default policy (see anchors.py): functions in the anchor table stay calls, everything else is looked through
         inline, opaque = "deep", OPAQUE
-    key = (id(prog), ctx, func.qualname, inline, no_inline, force_inline, tuple(sorted((param_types or {}).items())), id(opaque) if opaque is not None else 0)
+    key = (id(prog), ctx, func.qualname, inline, no_inline, force_inline, tuple(sorted((param_types or {}).items())), id(opaque) if opaque is not None else 0, alias)
     ANALYSED[(ctx or "", func.qualname)] = max(ANALYSED.get((ctx or "", func.qualname), 0), len(_PATH_CACHE[key]) if key in _PATH_CACHE else 0)
     if key not in _PATH_CACHE:
         pt = {"second": "<ctx>"} if second else {}
         pt.update(param_types or {})
         w = Walker(prog, ctx, inline=inline, param_types=pt, no_inline=no_inline, force_inline=force_inline,
                    max_states=max_states, opaque=opaque)
+        if alias:
+            # a field proved to always hold the last element of a list field of the same object is read as that element
+            w.alias_provider = lambda cname: last_alias_fields(prog, cname)
         _PATH_CACHE[key] = w.run(func)
         ANALYSED[(ctx or "", func.qualname)] = max(ANALYSED.get((ctx or "", func.qualname), 0), len(_PATH_CACHE[key]))
     return _PATH_CACHE[key]
@@ -37,6 +41,9 @@ def clear_caches():
     _PATH_CACHE.clear()
     _TYPED_CACHE.clear()
     _DERIVED_CACHE.clear()
+    _ALIAS_CACHE.clear()
+    _LEMMA_CACHE.clear()
+    _EFFECTS.clear()
     from . import walk as _w
     _w._FIELD_CLASS_CACHE.clear()
     _w._RET_CLASS_CACHE.clear()
@@ -314,6 +321,17 @@ def held_method_call(prog: Program, cname: str, e: Event):
     return F[1], F[2], (st[0], st[1]) if st else None
 
 
+_EFFECTS = {}
+
+
+def _effects_of(prog, cname, f):
+    from .effects import Effects
+    E = _EFFECTS.get(id(prog))
+    if E is None:
+        E = _EFFECTS[id(prog)] = Effects(prog)
+    return E.of(cname, f)
+
+
 def maintained_derived(prog: Program, cname: str):
     """fields of `cname` that remember a formula over other fields of the same object - ({field: formula}, {field: reason it is stale}).
     A field D qualifies when EVERY assignment to it in the class hierarchy stores one and the same expression F over other fields
@@ -331,15 +349,28 @@ def maintained_derived(prog: Program, cname: str):
         for p in paths(prog, cname, f):
             cur: Dict[str, tuple] = {}
             seq = []
+            final: Dict[str, tuple] = {}
             for i, e in enumerate(p.events):
                 if e.kind != "setfield" or e.base != SELF:
                     continue
                 v = strip_epochs(e.value)
                 back = {val: ("f", SELF, n, 0) for n, val in cur.items() if val[0] not in ("c",) and n != e.name}
                 v2 = canon(norm(_read_back(v, back)))
-                forms.setdefault(e.name, set()).add(v2)
+                final[e.name] = v2
                 cur[e.name] = v
                 seq.append((i, e.name, e))
+            # what counts is the value a path LEAVES in the object it returns: a placeholder that the same path overwrites - itself, or
+            # through a method of the class called afterwards (whose own paths are judged) - is not a second formula
+            if p.exit and p.exit[0] == "return":
+                last_i = {n_: max(i for i, m_, _ in seq if m_ == n_) for n_ in final}
+                for j, e in enumerate(p.events):
+                    if e.kind == "call" and e.target is not None and not e.d.get("inlined") and e.target.cls is not None and e.d.get("recv") == SELF:
+                        wr = {x[1] for x in _effects_of(prog, cname, e.target) if x[0] == "self"}
+                        for n_ in list(final):
+                            if n_ in wr and j > last_i[n_]:
+                                del final[n_]
+                for n_, v2 in final.items():
+                    forms.setdefault(n_, set()).add(v2)
             if p.exit and p.exit[0] == "return":
                 order.append((f, seq))
     derived = {}
@@ -348,9 +379,9 @@ def maintained_derived(prog: Program, cname: str):
             continue
         F = next(iter(fs))
         ins = {n[2] for n in walk(F) if n[0] == "f" and n[1] == SELF and n[2] != d}
-        pure = all(n[0] in ("f", "c", "nary", "bin", "un", "self") or not isinstance(n[0], str) or
+        pure = all(n[0] in ("f", "c", "nary", "bin", "un", "self", "phi", "tup", "cmp") or not isinstance(n[0], str) or
                    (n[0] == "call" and n[1][0] == "ext" and n[1][1] == "math") or (n[0] == "ext" and n[1] == "math") for n in walk(F))
-        if ins and pure and F[0] in ("nary", "bin", "call"):
+        if ins and pure and F[0] in ("nary", "bin", "call", "phi", "tup"):
             derived[d] = F
         elif F[0] == "f" and F[1][0] == "f" and F[1][1] == SELF and F[1][2] != d and F[2] in CONTAINER_METHODS:
             derived[d] = F  # a remembered bound method of a container the object holds: stale as soon as that field is re-bound
@@ -607,3 +638,190 @@ def empty_filter_reports_absent(prog, cls="BloomFilter"):
                 break
     _LEMMA_CACHE[key] = why
     return why
+
+
+
+_ALIAS_CACHE: Dict[tuple, Dict[str, str]] = {}
+_LIST_MUTATORS = {"pop", "insert", "remove", "clear", "extend", "sort", "reverse", "__delitem__", "__setitem__", "__iadd__"}
+
+
+def _written_as_last_of(p: State, e: Event, L) -> bool:
+    """the assignment behind event e is spelled `<target> = <name>[-1]` and <name> is bound to L on this path"""
+    n = e.node
+    v = getattr(n, "value", None)
+    if not (isinstance(v, ast.Subscript) and isinstance(v.value, ast.Name)):
+        return False
+    s = v.slice
+    minus_one = (isinstance(s, ast.UnaryOp) and isinstance(s.op, ast.USub) and isinstance(s.operand, ast.Constant) and s.operand.value == 1) or \
+        (isinstance(s, ast.Constant) and s.value == -1)
+    if not minus_one:
+        return False
+    bound = [strip_epochs(b.value) for b in p.events if b.kind == "bind" and b.name == v.value.id]
+    return bool(bound) and bound[-1] == L
+
+
+def last_alias_fields(prog: Program, cname: str) -> Dict[str, str]:
+    """{D: F}: fields D of class cname that, at every exit of every method, hold the very object that is the last element of the list field F
+    of the same object (`self._tail` next to `self._blooms`).  Reading D is then reading F[-1].
+
+    Decided by a per-path simulation over the walker's events, with two symbols per object: what D holds and what the last element of F is.
+    `F.append(v)` makes v the last element; `F = L` makes it the last element of L (the value appended to L last on the path, else L[-1]);
+    `F.pop(0)` / `del F[0]` keep it where the path's conditions give len(F) > 1, any other in-place change of F loses it; `D = v` sets D
+    (with `D = F[-1]` setting it to the current last element).  A call to another method of the class is taken by that method's own
+    verdict: *establishes* (equal at its exits whatever the entry state) or *preserves* (equal at its exits if equal at entry) - computed
+    as a greatest fixed point (partial correctness: the claim is about exits, a call that never returns has none).  The invariant holds when the constructor establishes and every method
+    preserves; objects built inside a method (alternate constructors) are tracked like self."""
+    key = (id(prog), cname)
+    if key in _ALIAS_CACHE:
+        return _ALIAS_CACHE[key]
+    _ALIAS_CACHE[key] = {}  # while it is being decided, reads are plain field reads
+    from .effects import Effects
+    from .intervals import EQ, path_orderings
+    K = prog.classes.get(cname)
+    if K is None:
+        return {}
+    family = {k.name for k in K.mro()}
+    meths = [f for f in mro_methods(prog, cname) if f.prop != "get"]
+    allp = {f.qualname: [p for p in paths(prog, cname, f, alias=False) if p.exit and p.exit[0] in ("return", "raise")] for f in meths}
+
+    def fld(base, n):
+        return ("f", base, n, 0)
+    # candidates: D = F[-1], or D = v with F.append(v) on the same path, or D = L[-1] with F = L on the same path
+    cands = set()
+    for f in meths:
+        for p in allp[f.qualname]:
+            sets = [e for e in p.events if e.kind == "setfield" and e.base == SELF]
+            apps = [(strip_epochs(e.recv), strip_epochs(e.args[0])) for e in p.events if e.kind == "call" and e.name == "append" and e.d.get("recv") is not None and e.args]
+            binds = {strip_epochs(e.value): e.name for e in sets}
+            for e in sets:
+                v = strip_epochs(e.value)
+                if v[0] == "sub" and v[2] == C(-1):
+                    if v[1][0] == "f" and v[1][1] == SELF and v[1][2] != e.name:
+                        cands.add((e.name, v[1][2]))
+                    elif v[1] in binds and binds[v[1]] != e.name:
+                        cands.add((e.name, binds[v[1]]))
+                for (r, a) in apps:
+                    if a == v and r[0] == "f" and r[1] == SELF and r[2] != e.name and v[0] in ("new", "ret", "f", "sub"):
+                        cands.add((e.name, r[2]))
+    out: Dict[str, str] = {}
+    E = Effects(prog) if cands else None
+    for (D, F) in sorted(cands):
+        est, pres = set(), set()
+
+        def sim(p, entry_equal, D=D, F=F):
+            state = {SELF: ["E", "E" if entry_equal else "T0"]}  # base -> [last element of F, what D holds]
+            local_last = {}
+            fresh = [0]
+
+            def unk(b):
+                fresh[0] += 1
+                state[b] = [("unk", fresh[0]), ("unk'", fresh[0])]
+
+            def st_of(b):
+                if b not in state:
+                    unk(b)
+                return state[b]
+            for e in p.events:
+                if e.kind == "setfield" and e.name in (D, F) and (e.base == SELF or e.base[0] == "new"):
+                    b = e.base
+                    s_ = st_of(b)
+                    v = strip_epochs(e.value)
+                    if e.name == D:
+                        if v == ("sub", fld(b, F), C(-1), 0):
+                            s_[1] = s_[0]
+                        elif v[0] == "sub" and v[2] == C(-1) and s_[0] == ("lastof", v[1]):
+                            s_[1] = s_[0]
+                        elif s_[0][0] == "lastof" and _written_as_last_of(p, e, s_[0][1]):
+                            s_[1] = s_[0]  # `D = xs[-1]` where the walker abstracts xs[-1] of a freshly built list to "an element"
+                        else:
+                            s_[1] = ("v", v)
+                    else:
+                        s_[0] = ("v", local_last[v]) if v in local_last else ("lastof", v)
+                elif e.kind == "setelem" and strip_epochs(e.cont)[0] == "f" and strip_epochs(e.cont)[2] == F and strip_epochs(e.cont)[1] in state:
+                    b = strip_epochs(e.cont)[1]
+                    s_ = st_of(b)
+                    s_[0] = ("v", strip_epochs(e.value)) if strip_epochs(e.index) == C(-1) else ("unk", id(e))
+                elif e.kind == "call" and e.d.get("recv") is not None:
+                    r = strip_epochs(e.recv)
+                    if r[0] == "f" and r[2] == F and (r[1] == SELF or r[1][0] == "new") and e.target is None:
+                        s_ = st_of(r[1])
+                        if e.name == "append" and e.args:
+                            s_[0] = ("v", strip_epochs(e.args[0]))
+                        elif e.name in ("pop", "__delitem__") and e.args and strip_epochs(e.args[0]) == C(0):
+                            ln = ("call", ("g", "len"), (fld(r[1], F),), ())
+                            # the removal itself succeeds only on a non-empty list; the last element moves only if it was the only one
+                            if EQ in path_orderings([strip_epochs(c) for c in conds_at(p, e)], ln, C(1)):
+                                s_[0] = ("unk", id(e))
+                        elif e.name in _LIST_MUTATORS:
+                            s_[0] = ("unk", id(e))
+                    elif r[0] in ("newb", "lst") and e.name == "append" and e.args and e.target is None:
+                        local_last[r] = strip_epochs(e.args[0])
+                    elif e.target is not None and not e.d.get("inlined") and e.target.cls is not None and e.target.cls.name in family \
+                            and (r == SELF or r[0] == "new") and e.target.kind == "method":
+                        g = e.target
+                        s_ = st_of(r)
+                        if g.qualname in est:
+                            s_[0] = s_[1] = ("eq", id(e))
+                        else:
+                            writes = any(x[0] == "self" and x[1] in (D, F) for x in E.of(cname, g))
+                            if writes and not (g.qualname in pres and s_[0] == s_[1]):
+                                unk(r)
+                            elif writes:
+                                s_[0] = s_[1] = ("eq", id(e))
+                elif e.kind == "new" and e.d.get("obj") is not None and e.d.get("cls") in family or (e.kind == "new" and e.d.get("cls") in {k for k in prog.classes if any(m.name == cname for m in prog.classes[k].mro())}):
+                    init = prog.classes[e.cls].find_method("__init__") if e.cls in prog.classes else None
+                    b = e.d.get("obj")
+                    if b is not None and init is not None and init.qualname in est and not e.d.get("inlined"):
+                        state[b] = [("eq", id(e)), ("eq", id(e))]
+            return all(s_[0] == s_[1] for s_ in state.values())
+        # greatest fixed point: every verdict is assumed, and withdrawn when a path contradicts it under the assumptions still standing.
+        # What remains is a set of exit conditions each of which follows from the others - the usual partial-correctness argument (by
+        # induction on the depth of the call tree), so a terminating recursion such as __load(path) -> __load(mapped file) is covered
+        est.update(f.qualname for f in meths if allp[f.qualname])
+        pres.update(est)
+        changed = True
+        while changed:
+            changed = False
+            for f in meths:
+                ps = allp[f.qualname]
+                if f.qualname in est and not all(sim(p, False) for p in ps):
+                    est.discard(f.qualname)
+                    changed = True
+                if f.qualname in pres and not all(sim(p, True) for p in ps):
+                    pres.discard(f.qualname)
+                    changed = True
+        init = K.find_method("__init__")
+        if init is not None and init.qualname in est and all(f.qualname in pres for f in meths if allp[f.qualname]):
+            out[D] = F
+        elif _os.environ.get("VA_DEBUG_ALIAS"):
+            print("alias", cname, D, F, "init est:", init is not None and init.qualname in est, "not preserved:", [f.qualname for f in meths if allp[f.qualname] and f.qualname not in pres], "est:", sorted(est))
+    _ALIAS_CACHE[key] = out
+    return out
+
+
+
+def true_atoms(p: State) -> List[tuple]:
+    """the atoms a path has established as true, with conjunctions taken apart: a true `a and b` gives a, b; a false `a or b` gives
+    not a, not b (epochs stripped)"""
+    from .expr import _norm_node
+    out = []
+
+    def add(a, truth):
+        a = strip_epochs(a)
+        if a[0] == "and" and truth:
+            for x in a[1]:
+                add(x, True)
+        elif a[0] == "or" and not truth:
+            for x in a[1]:
+                add(x, False)
+        elif a[0] == "un" and a[1] == "not":
+            add(a[2], not truth)
+        elif truth:
+            out.append(a)
+        else:
+            n = ("un", "not", a)
+            out.append(_norm_node(n) or n)
+    for c in p.conds:
+        if c.atom[0] != "loop0":
+            add(c.atom, c.truth)
+    return out
